@@ -49,6 +49,9 @@ def make_cost(spec):
     if name == 'array':      # vector valued (for reducers)
         c = spec[1]
         return lambda x: np.array([(xi - ci) * (xi - ci) + 0.5 for xi, ci in zip(x, c)] + [0.25 * abs(x[0])])
+    if name == 'array1':     # vector valued with exactly one component (which may be negative): a reducer still has to be applied to it
+        c = spec[1]
+        return lambda x: np.array([sum((xi - ci) * (xi - ci) for xi, ci in zip(x, c)) - 3.0])
     raise KeyError(name)
 
 
